@@ -146,3 +146,48 @@ def good_keydomain_sentinel(left, right, key):
     if lkval is not nokey and (rkval is nokey or lkval > rkval):
         for row in lgrp:
             yield tuple(row)
+
+
+def bad_two_nexts_one_statement(left, right, key):
+    lit = iter(left)
+    rit = iter(right)
+    lhdr = next(lit)
+    rhdr = next(rit)
+    getk = comparable_itemgetter(*asindices(lhdr, key))
+    lgit = itertools.groupby(lit, key=getk)
+    rgit = itertools.groupby(rit, key=getk)
+    lgrp = []
+    nokey = Comparable(None)
+    lkval, rkval = nokey, nokey
+    try:
+        (lkval, lgrp), (rkval, rgrp) = next(lgit), next(rgit)   # left group lost if right is empty
+    except StopIteration:
+        pass
+    if lkval is not nokey and (rkval is nokey or lkval > rkval):
+        for row in lgrp:
+            yield tuple(row)
+
+
+def bad_delete_while_enumerating(iterables):
+    iterators = [iter(i) for i in iterables]
+    shortlist = []
+    for i, it in enumerate(iterators):
+        try:
+            shortlist.append(next(it))
+        except StopIteration:
+            del iterators[i]            # the next iterator is skipped
+    return iterators, shortlist
+
+
+def good_collect_then_filter(iterables):
+    iterators = []
+    shortlist = []
+    for iterable in iterables:
+        it = iter(iterable)
+        try:
+            first = next(it)
+            iterators.append(it)
+            shortlist.append(first)
+        except StopIteration:
+            pass
+    return iterators, shortlist
